@@ -81,6 +81,9 @@ def cases(tier):
         for t in NUM_TAGS:
             for path in ('wire', 'driver'):
                 out.append(case('run_validate', f'{name}/{t}/{path}', shape=shape, cand=t, path=path))
+    for path in ('wire', 'driver'):
+        out.append(case('run_validate', f'int/bigint/{path}', shape=I, cand='bigint', path=path))
+        out.append(case('run_validate', f'array-int/bigint/{path}', shape={'k': 'array', 'of': I}, cand=['list', ['bigint']], path=path))
     for name, shape in (('string', S), ('string-utf8', SU)):
         for t in STR_LITS:
             for path in ('wire', 'driver'):
